@@ -21,13 +21,30 @@ def spec(name, layout, queue, seq_len, dst1, dst2, **kw):
     return s
 
 
+def id10_spec(seq_len, **kw):
+    """The bystander pull request has id 10 and its integration pull
+    requests ids 11, 12: ids that share a prefix with the id of the pull
+    request being reset (1)."""
+    init = [['open', PR1, 'development/4.3']]
+    for k in range(2, 10):
+        init += [['open', 'bugfix/FILL-%d' % k, 'development/10.0'],
+                 ['decline', k]]
+    init += [['open', PR2, 'development/4.3'],
+             ['eval_pr', 1], ['eval_pr', 10]]
+    s = spec('c15-noq-D3-id10', 'D3', False, seq_len, None, None, **kw)
+    s['init'] = init
+    s['other_pr'] = 10
+    return s
+
+
 def specs(tier):
     if tier == 'quick':
         return [spec('c15-noq-D3', 'D3', False, 3, 'development/4.3',
                      'development/5.1',
                      ops=['push', 'rebase', 'eval_pr', 'merge_pr2',
-                          'manual'])]
-    return [spec('c15-noq-D3', 'D3', False, 3, 'development/4.3',
+                          'manual']),
+                id10_spec(1, ops=['push', 'eval_pr', 'merge_pr2'])]
+    return [id10_spec(2),spec('c15-noq-D3', 'D3', False, 3, 'development/4.3',
                  'development/5.1'),
             spec('c15-q-D3', 'D3', True, 3, 'development/4.3',
                  'development/5.1'),
